@@ -505,7 +505,17 @@ def _machine_shard(arg):
 
 # --------------------------------------------------------------------------- entry points
 
+def prime():
+    """Load every module the shards use before forking / drawing (Hypothesis derives constants from the local modules
+    in sys.modules, so the module set must be the same in every worker)."""
+    tree.activate_view()
+    run_history([["w", 0, "a\n", 1], ["ip", 0], ["insnew", 0], ["nw", 1], ["w", 3, "b"], ["ins", 2, 3],
+                 ["commit", 0], ["rw", 1, "c"], ["pos", 0, None], ["w", 0, "\n"], ["obs", 0]])
+    import hypothesis.stateful  # noqa: F401
+
+
 def run(ctx):
+    prime()
     length = 6
     plen = 2
     prefixes = _prefixes(plen)
@@ -558,7 +568,7 @@ def _keep_shortest(ctx):
 
 
 def replay(ctx, case):
-    tree.activate_view()
+    prime()
     wd, mm = run_history([list(op) for op in case["ops"]])
     if mm is None:
         return False, "history of %d ops agrees with the model" % len(case["ops"])
